@@ -85,7 +85,7 @@ cpdef object idx_to_date_fast(
     Returns:
         Datetime for the index
     """
-    cdef int seconds
+    cdef long long seconds  # slot index x resolution exceeds 2^31 beyond a 68-year horizon
 
     if force_into_project:
         if idx < 0:
@@ -93,7 +93,7 @@ cpdef object idx_to_date_fast(
         if idx >= size:
             return end_date
 
-    seconds = idx * resolution
+    seconds = <long long>idx * resolution
     return start_date + timedelta(seconds=seconds)
 
 
@@ -163,8 +163,8 @@ cpdef list collect_intervals_fast(
 
                     # Create interval (a run that lies wholly outside the query window clips to nothing)
                     if start < current_idx:
-                        start_dt = start_date + timedelta(seconds=start * resolution)
-                        end_dt = start_date + timedelta(seconds=current_idx * resolution)
+                        start_dt = start_date + timedelta(seconds=<long long>start * resolution)
+                        end_dt = start_date + timedelta(seconds=<long long>current_idx * resolution)
                         intervals.append(interval_class(start_dt, end_dt))
 
                 duration = 0
